@@ -2,6 +2,7 @@
 # trymut.sh <patch.diff> <ID> [<ID>...]  -- apply a seeded change to /repo, run checks, undo it.
 patch="$1"; shift
 cd /repo || exit 9
+rm -rf /tmp/ev_save && cp -r /verif/evidence /tmp/ev_save
 if ! git diff --quiet -- src; then echo "repo dirty, abort"; exit 9; fi
 git apply "$patch" || { echo "patch does not apply"; exit 9; }
 for id in "$@"; do
@@ -9,3 +10,4 @@ for id in "$@"; do
   (cd /verif && ./check "$id" 2>&1 | grep -E "^(VIOLATION|OK|INCONCLUSIVE|KNOWN|FAILED)" | cut -c1-400; echo "rc=${PIPESTATUS[0]}")
 done
 git -C /repo checkout -- . 
+rm -rf /verif/evidence && mv /tmp/ev_save /verif/evidence
